@@ -46,7 +46,9 @@ async fn run_cfg<TC: Tcfg>(case: &Case, st: &mut Stats) -> R {
             Some(ck) if e > 0 => Some(new_ro::<TC, _>(manager(db.clone(), ck), &sys.key, case.par).await?),
             _ => None,
         };
-        for l in &pool {
+        // very large pools (wide histories): a rotating window of labels per epoch keeps the case affordable
+        let window: Vec<Vec<u8>> = if pool.len() > 14 { (0..12).map(|k| pool[(i * 5 + k * 7) % pool.len()].clone()).collect() } else { pool.clone() };
+        for l in &window {
             let total = sys.m.versions_at(l, e).len();
             if total == 0 {
                 let r = sys.dir.key_history(&AkdLabel(l.clone()), HP::Complete.to()).await;
